@@ -14,10 +14,10 @@
    (C07_btree_* below: representation invariant + refinement of L0 for any degree and any strict weak order;
    transcription = code by the body ties and the driver's observation-and-shape comparison), model = code (driver correspondence after every
    operation with all query methods; proof/C07_Skel.v ties every transcribed function body to the source). *)
-From Coq Require Import Sorting.Sorted.
+From Coq Require Import Sorting.Sorted Permutation.
 From PDV Require Import lib.Base lib.C07_Key gen.Gen_C07 model.C07_BTreeSpec model.C07_Region
   proof.C07_Sorted proof.C07_Tree proof.C07_RegionProof proof.C07_Spec proof.C07_Spec2 proof.C07_Monitor proof.C07_BTree proof.C07_Skel
-  model.C07_BTree proof.C07_BTreeOrder proof.C07_BTreeRefine proof.C07_BTreeSim proof.C07_BTreeRegion.
+  model.C07_BTree proof.C07_BTreeOrder proof.C07_BTreeRefine proof.C07_BTreeSim proof.C07_BTreeRegion proof.C07_SortPeers.
 Local Open Scope Z_scope.
 
 (* number of indexed regions = number of cached regions = number of current regions; ids unique *)
@@ -206,6 +206,12 @@ Proof. exact merge_spec. Qed.
 Theorem C07_btree_indices_removeAt : forall a s b, ix_remove_at (length a) (idx_of (a ++ s :: b)) = (s, idx_of (a ++ b)).
 Proof. exact remove_at_spec. Qed.
 
+(* sort.Sort in classifyVoterAndLearner: with distinct peer ids (PD's id allocator) the sorted voter / learner list is
+   unique, so the model's insertion sort stands for any correct sort, for any number of peers *)
+Theorem C07_sort_peers_unique : forall l l', NoDup (map p_id l) -> Permutation l l' ->
+  StronglySorted (fun a b => p_id a <= p_id b) l' -> l' = sort_peers l.
+Proof. exact sort_peers_unique. Qed.
+
 (* non-vacuity: a history inside the domain with a split-like overlap, an in-place update, a swallowing put
    and a removal; the swallowing region is what remains *)
 Example C07_nonvacuous :
@@ -246,5 +252,6 @@ Print Assumptions C07_btree_queries_refine.
 Print Assumptions C07_btree_region_item_order.
 Print Assumptions C07_btree_region_items_refine.
 Print Assumptions C07_btree_refines_list_spec.
+Print Assumptions C07_sort_peers_unique.
 Print Assumptions C07_btree_indices_split.
 Print Assumptions C07_btree_indices_merge.
